@@ -1,5 +1,6 @@
 import GModel.Basic
 import GModel.Volume
+import GModel.FreeEnergy
 /-! line-protocol operations for C08 -/
 namespace G.Ops5
 open G G.Volume
@@ -29,4 +30,18 @@ def opRoundTrip : Rd String := do
 
 def table : List (String × Rd String) := [
   ("volume", opVolume), ("nvox", opNVox), ("voxof", opVoxOf), ("roundtrip", opRoundTrip)]
+end G.Ops5
+
+namespace G.Ops5
+open G G.FreeEnergy
+/-- `fe T thr d…` → bit patterns of F per voxel, then node flags -/
+def opFe : Rd String := do
+  let t ← rdRat
+  let thr ← rdRat
+  let d ← rdList rdNat
+  let f := freeEnergy (ratToFloat t) d
+  let bits := f.map (fun x => toString x.toBits.toNat)
+  let nodes := f.map (fun x => if isNode (ratToFloat thr) x then "1" else "0")
+  pure (" ".intercalate (["ok"] ++ bits ++ ["|"] ++ nodes))
+def table2 : List (String × Rd String) := [("fe", opFe)]
 end G.Ops5
